@@ -452,3 +452,6 @@ func verifStopWhileAwake(maxYields int) {
 	verifAssert(!slowStarted || slowCtxCancelled, "C04: a query in flight when the lookup is stopped has its context cancelled")
 	verifReach("end")
 }
+
+// The duplicate-ID graph again; the spec runs this entry with one preemption anywhere.
+func VerifTrav_DuplicateIDsP1() { VerifTrav_DuplicateIDs() }
